@@ -204,7 +204,7 @@ fn check_cmplx(u: &[Cmplx], v: &[Cmplx], acc: &mut Acc) -> Result<(), String> {
 fn main() {
     let ctx = Ctx::from_args("C12");
     ctx.level("exploration");
-    ctx.rule("E1: exact - every dividend of length 0..4 and divisor of length 0..3 over {0,1,-1,2,-2} plus structured pairs up to degree 10/6; f64 - every dividend of length 1..4 (quick) / 1..5 (thorough) and divisor of length 1..3 over {1,-3,0.1,49,1e-6,-7.3e5,0,1/3}; integer-valued f64; Complex<f64> over 6 letters. Oracle: non-zero leading coefficient => Ok, u = q*v + r (exact / relative 1e-13 by double-double residual), deg r < deg v or r = 0; empty or all-zero divisor => Err; never a panic; a per-call watchdog reports a spin. Non-trivial: non-zero remainders, divisors longer than the dividend, constant divisors, leading terms that do not cancel exactly in f64.");
+    ctx.rule("E1: exact - every dividend of length 0..4 and divisor of length 0..3 over {0,1,-1,2,-2} plus structured pairs up to degree 10/6; f64 - every dividend of length 1..4 (quick) / 1..6 (thorough) and divisor of length 1..3 over {1,-3,0.1,49,1e-6,-7.3e5,0,1/3}, and dividends of degree 5..10 with divisors of degree 0..6 built from letter cycles; integer-valued f64; Complex<f64> over 6 letters. Oracle: non-zero leading coefficient => Ok, u = q*v + r (exact / relative 1e-13 by double-double residual), deg r < deg v or r = 0; empty or all-zero divisor => Err; never a panic; a per-call watchdog reports a spin. Non-trivial: non-zero remainders, divisors longer than the dividend, constant divisors, leading terms that do not cancel exactly in f64.");
     ctx.assume("divisors whose stored leading coefficient is zero are outside the claim (only absence of a panic is required over floats)");
     ctx.threshold("division_identity_relative_error", REL);
     ctx.threshold("division_identity_relative_error_complex", 1e-12);
@@ -273,7 +273,7 @@ fn main() {
     );
     // floats
     let f8 = vec![1.0, -3.0, 0.1, 49.0, 1e-6, -7.3e5, 0.0, 1.0 / 3.0];
-    let maxu = ctx.pick(4, 5);
+    let maxu = ctx.pick(4, 6);
     let nu = count_vecs(1, maxu, 8);
     let nv = count_vecs(1, 3, 8);
     ctx.lattice(
@@ -301,6 +301,39 @@ fn main() {
             }
         },
     );
+    // f64 pairs of the full degree range of the property: dividends of degree 5..10, divisors of degree 0..6, coefficient
+    // sequences cycling through the 8 letters from every starting letter (zeros inside, leading coefficient made non-zero)
+    {
+        let f8c = f8.clone();
+        ctx.lattice(
+            "f64: dividends of degree 5..10 x divisors of degree 0..6, letter cycles from 8 x 8 starting positions",
+            6 * 7 * 64,
+            |idx| format!("{}", idx),
+            |idx, acc| {
+                let (ru, rv) = ((idx % 8) as usize, ((idx / 8) % 8) as usize);
+                let dv = ((idx / 64) % 7) as usize;
+                let du = 5 + (idx / 448) as usize;
+                let mut u: Vec<f64> = (0..=du).map(|k| f8c[(k * 3 + ru) % 8]).collect();
+                let mut v: Vec<f64> = (0..=dv).map(|k| f8c[(k * 5 + rv) % 8]).collect();
+                if u[du] == 0.0 {
+                    u[du] = -3.0;
+                }
+                if v[dv] == 0.0 {
+                    v[dv] = 0.1;
+                }
+                acc.nontriv("f64 dividend of degree >= 5");
+                let mut local = Acc::new("t");
+                let res = catch(|| check_f64(&u, &v, &mut local));
+                acc.merge_worst(local);
+                let key = || format!("f64 u={:?} v={:?}", u, v);
+                match res {
+                    Ok(Ok(())) => {}
+                    Ok(Err(e)) => acc.fail(idx, key(), e),
+                    Err(p) => acc.fail(idx, key(), format!("unexpected panic: {}", p)),
+                }
+            },
+        );
+    }
     let i5 = vec![0.0, 1.0, -1.0, 2.0, 7.0];
     let nu = count_vecs(0, 4, 5);
     let nv = count_vecs(0, 3, 5);
